@@ -448,6 +448,17 @@ Theorem C12_prim_cbrt_rem_asis_sound : forall fuel bits n c e, (bits = 8 \/ bits
 Proof. exact prim_cbrt_rem_asis_sound. Qed.
 Print Assumptions C12_prim_cbrt_rem_asis_sound.
 
+(** u128 square root: one Karatsuba step (KBITS = 32) over the u64 routine, wrapping arithmetic included *)
+Theorem C12_nsqrt128_sound : forall fuel A S R, A < 2 ^ 128 -> nsqrt128 fuel A = Ok (S, R) -> S = Z.sqrt A /\ R = A - S * S.
+Proof. exact nsqrt128_sound. Qed.
+Print Assumptions C12_nsqrt128_sound.
+
+Theorem C12_prim_sqrt_rem_asis_sound_all : forall fuel bits n r,
+  (bits = 8 \/ bits = 16 \/ bits = 32 \/ bits = 64 \/ bits = 128) ->
+  0 <= n < 2 ^ bits -> prim_sqrt_rem_asis fuel bits n = Ok r -> r = sqrt_rem_spec n.
+Proof. exact prim_sqrt_rem_asis_sound_all. Qed.
+Print Assumptions C12_prim_sqrt_rem_asis_sound_all.
+
 (** finite domains, by computation: EVERY u16 value 0..65535 with at most 3 corrections, EVERY u8 value 0..255 *)
 Theorem C12_prim_sqrt_rem_u16_total : forall n, 0 <= n <= 65535 -> prim_sqrt_rem_asis 4 16 n = Ok (sqrt_rem_spec n).
 Proof. exact prim_sqrt_rem_u16_total. Qed.
